@@ -46,7 +46,7 @@ def leaf_sx(path, t):
     return [list(path), str(t.dtype), t.element_size(), list(t.shape), sx_bytes(t)]
 
 
-def gen_struct(rng, b, DT=DT):
+def gen_struct(rng, b, DT=DT, twins=False):
     """list of (path, dtype, shape): root leaves and one optional nested node 'n' (same batch dims)"""
     feats = [[], [], [1], [2], [3], [0], [2, 2]]
     n_root = rng.randint(1, 4)
@@ -62,6 +62,10 @@ def gen_struct(rng, b, DT=DT):
     if pos_nested == n_root:
         for k in ["x", "y"][: rng.randint(1, 2)]:
             out.append((("n", k), rng.choice(DT), b + rng.choice(feats)))
+    if twins and len(out) >= 2 and rng.random() < 0.6:
+        # two entries with the same dtype and shape (exchanging them leaves the metadata unchanged)
+        i, j = rng.sample(range(len(out)), 2)
+        out[j] = (out[j][0], out[i][1], out[i][2])
     return out
 
 
@@ -347,6 +351,13 @@ def replay_histories(run, drv, cases, scratch):
                 td.names = op[1]
             elif kind == "rename":
                 td.rename_key_(tuple(op[1]), tuple(op[2]))
+            elif kind == "swap":
+                va, vb = td[tuple(op[1])], td[tuple(op[2])]
+                td[tuple(op[1])] = vb
+                td[tuple(op[2])] = va
+            elif kind == "assign":
+                v = td[tuple(op[2])]
+                td[tuple(op[1])] = v.clone() if op[3] else v
         m = parse_sx(drv.ask(sx("c11.history", c["nodes"], c["entries"], c["ops"])))
         run.case(("history-replay", ci))
         compare_history(run, m, td, c, consolidated, is_current)
@@ -369,18 +380,19 @@ def run_histories(run, drv):
             b = rng.choice([[2], [3], [2, 2]])
             device = rng.choice([None, None, "cpu"])
             names = rng.choice([None, None, ["t", "u"][: len(b)]])
-            struct = gen_struct(rng, b, DT_HIST)
+            struct = gen_struct(rng, b, DT_HIST, twins=True)
             td = build_td(struct, rng, b, device, names)
             init_nodes = nodes_of(td)
             init_entries = [leaf_sx(tuple(l[0]), td[tuple(l[0])]) for l in obs_of(td)[1]]
             ops_sx = []
             locked = False
             consolidated = False
-            fresh_names = iter(["k1", "k2", "k3", "k4", "k5", "k6"])
+            fresh_names = (f"k{i}" for i in itertools.count(1))   # unbounded: long histories rename / add many keys
             n_ops = rng.randint(1, 7)
             cons_at = rng.randrange(n_ops) if rng.random() < 0.85 else None
             kinds_used = []
             aborted = False
+            slots = set()     # the keys bound to a view of the consolidated storage (python-side bookkeeping for `assign`)
             for step in range(n_ops):
                 paths = [tuple(l[0]) for l in obs_of(td)[1]]
                 if step == cons_at:
@@ -405,12 +417,14 @@ def run_histories(run, drv):
                         ops_sx.append(["consolidate", file])
                     else:
                         ops_sx.append(["consolidate", file])
+                    if not consolidated:
+                        slots = set(paths)
                     consolidated = True
                     kinds_used.append("consolidate-file" if file else "consolidate")
                     continue
                 choices = ["inplace", "inplace", "lock" if not locked else "unlock", "names"]
                 if not locked:
-                    choices += ["set_new", "set_new", "replace", "del", "rename", "set_nested"]
+                    choices += ["set_new", "set_new", "replace", "del", "rename", "set_nested", "swap", "swap", "swap_rename", "assign"]
                 kind = rng.choice(choices)
                 if kind == "inplace" and paths:
                     p = rng.choice(paths)
@@ -447,6 +461,51 @@ def run_histories(run, drv):
                     t = mk_tensor(rng, rng.choice(DT_HIST), b + rng.choice([[], [2], [0]]), rng.randint(0, 9))
                     td[p] = t
                     ops_sx.append(["set"] + leaf_sx(p, t))
+                elif kind in ("swap", "swap_rename", "assign") and len(paths) >= 2:
+                    # exchange two entries / bind a key to another entry's tensor; entries without elements are left out
+                    # (they point to no data: the library does not look at their address, the model does)
+                    live = [p for p in paths if td[p].numel() > 0]
+                    twins_ = [(p, q) for p in live for q in live if p != q and td[p].dtype == td[q].dtype and td[p].shape == td[q].shape]
+                    if len(live) < 2:
+                        continue
+                    p, q = rng.choice(twins_) if (twins_ and rng.random() < 0.8) else tuple(rng.sample(live, 2))
+                    if kind == "swap":
+                        vp, vq = td[p], td[q]
+                        td[p] = vq
+                        td[q] = vp
+                        ops_sx.append(["swap", list(p), list(q)])
+                        inp, inq = p in slots, q in slots
+                        slots.discard(p); slots.discard(q)
+                        if inq:
+                            slots.add(p)
+                        if inp:
+                            slots.add(q)
+                    elif kind == "swap_rename":
+                        # the same exchange by three renames through a temporary key; a nested node never runs empty
+                        # (the model does not track the position of an empty node)
+                        if len(p) != len(q) and sum(1 for r in paths if len(r) == 2) < 2:
+                            continue
+                        tmp = p[:-1] + (next(fresh_names),)
+                        for a_, b_ in ((p, tmp), (q, p), (tmp, q)):
+                            td.rename_key_(a_, b_)
+                            ops_sx.append(["rename", list(a_), list(b_)])
+                        inp, inq = p in slots, q in slots
+                        slots.discard(p); slots.discard(q)
+                        if inq:
+                            slots.add(p)
+                        if inp:
+                            slots.add(q)
+                    else:
+                        dst = rng.choice([p, p, (next(fresh_names),)])
+                        # a view of the consolidated storage is bound as it is (two keys then share the memory, in the model
+                        # the slot); memory of its own is copied (the model does not share `own` memory between entries)
+                        cl = q not in slots
+                        v = td[q]
+                        td[dst] = v.clone() if cl else v
+                        ops_sx.append(["assign", list(dst), list(q), cl])
+                        slots.discard(dst)
+                        if not cl:
+                            slots.add(dst)
                 elif kind == "replace" and paths:
                     p = rng.choice(paths)
                     old = td[p]
@@ -454,6 +513,7 @@ def run_histories(run, drv):
                         continue   # a 0-element leaf replaced by a 0-element leaf is not observable (the library keeps the snapshot, the model drops it)
                     t = mk_tensor(rng, rng.choice([old.dtype, rng.choice(DT_HIST)]), list(old.shape), rng.randint(1, 20))
                     td[p] = t
+                    slots.discard(p)
                     ops_sx.append(["set"] + leaf_sx(p, t))
                 elif kind == "del" and len(paths) > 1:
                     p = rng.choice(paths)
@@ -461,12 +521,16 @@ def run_histories(run, drv):
                     if len(p) == 2 and sum(1 for q in paths if len(q) == 2) == 1:
                         continue
                     del td[p]
+                    slots.discard(p)
                     ops_sx.append(["del", list(p)])
                 elif kind == "rename" and paths:
                     p = rng.choice(paths)
                     k = next(fresh_names)
                     q = p[:-1] + (k,)
                     td.rename_key_(p, q)
+                    if p in slots:
+                        slots.discard(p)
+                        slots.add(q)
                     ops_sx.append(["rename", list(p), list(q)])
                 else:
                     continue
